@@ -9,7 +9,7 @@ from pedantic.decorators.fn_deco_pedantic import pedantic, pedantic_require_docs
 from pedantic.env_var_logic import is_enabled
 from pedantic.exceptions import PedanticTypeCheckException
 from pedantic.type_checking_logic.check_generic_classes import check_instance_of_generic_class_and_get_type_vars, \
-    is_instance_of_generic_class
+    is_instance_of_generic_class, get_instance_attribute
 
 
 def for_all_methods(decorator: F) -> Callable[[Type[C]], Type[C]]:
@@ -84,7 +84,7 @@ def _add_type_var_attr_and_method_to_class(cls: C) -> None:
         if is_instance_of_generic_class(instance=self):
             class_params = getattr(type(self), '__parameters__', ())
             # only the type parameters of the class are remembered per instance; every other TypeVar lives for one call
-            type_vars_fifo = {k: v for k, v in getattr(self, TYPE_VAR_ATTR_NAME, dict()).items() if k in class_params}
+            type_vars_fifo = {k: v for k, v in get_instance_attribute(instance=self, name=TYPE_VAR_ATTR_NAME, default=dict()).items() if k in class_params}
             type_vars_generics = check_instance_of_generic_class_and_get_type_vars(instance=self)
             setattr(self, TYPE_VAR_ATTR_NAME, {**type_vars_fifo, **type_vars_generics, **t_vars})
         else:
